@@ -26,6 +26,7 @@ import (
 	"sort"
 	"strconv"
 	"strings"
+	"syscall"
 	"time"
 	"unicode"
 	"unicode/utf8"
@@ -66,6 +67,17 @@ type textPtrTM struct{ data string }
 func (t *textPtrTM) MarshalText() ([]byte, error) { return []byte(t.data), nil } // typed nil: nil dereference
 
 type textStringer struct{ s string }
+
+// named numeric types with a String method whose text needs quoting (like syscall.Signal's "broken pipe")
+type textNumStringer int
+
+func (n textNumStringer) String() string {
+	return [...]string{"broken pipe", "a=b", "say \"hi\"", "two\nlines", "", "plain", "tab\there", "ключ и значение"}[int(n)&7]
+}
+
+type textFloatStringer float64
+
+func (f textFloatStringer) String() string { return fmt.Sprintf("%g units = x", float64(f)) }
 
 func (s textStringer) String() string { return s.s }
 
@@ -680,7 +692,7 @@ func textKey(r *Rng) string {
 }
 
 var textLeafKinds = []string{"str", "i64", "u64", "f64", "bool", "dur", "time", "mok", "merr", "mpanic", "err",
-	"errpanic", "nilptrerr", "ptrerr", "nilptrtm", "bytes", "ansi", "nil", "stringer", "struct", "int", "map", "lv", "lvlv", "foreignerr"}
+	"errpanic", "nilptrerr", "ptrerr", "nilptrtm", "bytes", "ansi", "nil", "stringer", "numstringer", "struct", "int", "map", "lv", "lvlv", "foreignerr"}
 
 func textLeafValue(r *Rng, s *Stream) slog.Value {
 	k := Pick(r, textLeafKinds)
@@ -729,6 +741,16 @@ func textLeafValue(r *Rng, s *Stream) slog.Value {
 		return slog.AnyValue(nil)
 	case "stringer":
 		return slog.AnyValue(textStringer{textHostile(r)})
+	case "numstringer":
+		switch r.Intn(4) {
+		case 0:
+			return slog.AnyValue(syscall.Signal(1 + r.Intn(31)))
+		case 1:
+			return slog.AnyValue(textFloatStringer(float64(r.Intn(100)) / 4))
+		case 2:
+			return slog.AnyValue(time.Month(1 + r.Intn(12)))
+		}
+		return slog.AnyValue(textNumStringer(r.Intn(64)))
 	case "struct":
 		return slog.AnyValue(textStruct{textHostile(r), r.Intn(100)})
 	case "int":
